@@ -818,6 +818,7 @@ def tetromino_class(cells):
 
 class Lits(Spec):
     name = "lits"
+    quick_shards = 5
     max_cells_quick = 25
     max_cells_thorough = 30
 
